@@ -13,7 +13,9 @@
      T4  [C05_block_scalar_partial]: scan_block_scalar returns [block_value] for
            style        literal and folded
            chomping     strip, clip, keep
-           indentation  explicit (1-9, either indicator order) or auto-detected, content indentation >= 1
+           indentation  explicit (1-9, either indicator order) or auto-detected; content indentation 0 (top level)
+                        included: no content line at column 0 may look like a document marker, and the first
+                        line may not start with a tab
            parent       any scanner state (parent indentation = what unroll_non_block_indents leaves, -1 at top level)
            header       indicators, then white space (blanks, tabs) and an optional comment, then the line feed
            lines        ALL line lists of content lines (any extra indentation, whitespace-only content lines, lines
@@ -22,17 +24,19 @@
                         has no extra indentation and is not whitespace-only
            line breaks  LF
            end          every line terminated by a line feed, then a less indented line that does not start with a
-                        break, or the end of the input (trailing blank lines are part of the line list);
+                        break, or the end of the input (trailing blank lines are part of the line list), or — content
+                        indentation 0 — a document-end marker line `...` ([ends_after]);
                         [C05_block_scalar_eof_partial]: the end of the input right after the last content line
                         (no final line feed);
                         [C05_block_scalar_empty_partial]: NO content line at all — blank lines only (or nothing),
                         then the end of the input (with a final line feed, without, or inside a last line of
                         spaces: the end-of-stream path) or a line of an enclosing collection
            back-end     string input
-   NOT proved (stated as [C05_full], exercised by the Examples below and by the differential run):
-   content indentation 0, a document marker after a content-less top-level scalar, CR / CR LF, the end of the input
-   after a whitespace-only last line without a line feed, buffered back-ends.  [C05_full] itself is refuted on the
-   faithful model by three input classes (known_findings_c05.jsonl); the witnesses are theorems below. *)
+   NOT proved (stated as [C05_full], exercised by the Examples below and by the differential run): a `---` line
+   after content at column 0 and the end of the input inside a whitespace-only last line after content (both are
+   known findings), a document marker after a content-less top-level scalar, CR / CR LF line breaks, the buffered
+   back-ends.  [C05_full] itself is refuted on the faithful model by three input classes
+   (known_findings_c05.jsonl); the witnesses are theorems below. *)
 From Coq Require Import List NArith ZArith Bool Arith Lia.
 Import ListNotations.
 Require Import Parser SBase SPrim SDir SScalar SFetch Pipe SBuf Drivers BlockScalar BlockScalarProofs.
@@ -103,8 +107,9 @@ Theorem C05_block_scalar_partial : forall (s : sc strin) F literal c (explicit :
   si_chars (sc_in s) = render_block n literal c explicit digit_first hc lines (EofRest (sps j ++ r')) ->
   unroll_nb (sc_indents s) (sc_indent s) = (pz, inds) ->
   header_tail hc -> (2 * length hc + 2 < F)%nat ->
-  n <> O -> Forall (line_ok F n) lines -> (S (length lines) < F)%nat -> has_text lines = true ->
-  (j < n)%nat -> hd0 r' <> 32 -> is_break (hd0 r') = false -> (r' = [] -> j = O) ->
+  Forall (line_ok F n) lines -> Forall (line_col0 n) lines -> (n = O -> first_char n lines <> 9) ->
+  (S (length lines) < F)%nat -> has_text lines = true ->
+  ends_after n j r' -> hd0 r' <> 32 -> is_break (hd0 r') = false -> (r' = [] -> j = O) ->
   match explicit with
   | Some d => (1 <= d <= 9)%nat /\ N.of_nat n = (if (0 <=? pz)%Z then Z.to_N (pz + Z.of_N (N.of_nat d)) else N.of_nat d)
   | None => Z.to_N (pz + 1) <= N.of_nat n /\ exists txt, first_text lines = Some (O, txt) /\ txt <> []
@@ -120,7 +125,8 @@ Theorem C05_block_scalar_eof_partial : forall (s : sc strin) F literal c (explic
   si_chars (sc_in s) = render_block n literal c explicit digit_first hc lines EofNone ->
   unroll_nb (sc_indents s) (sc_indent s) = (pz, inds) ->
   header_tail hc -> (2 * length hc + 2 < F)%nat ->
-  n <> O -> Forall (line_ok F n) lines -> (S (length lines) < F)%nat -> has_text lines = true ->
+  Forall (line_ok F n) lines -> Forall (line_col0 n) lines -> (n = O -> first_char n lines <> 9) ->
+  (S (length lines) < F)%nat -> has_text lines = true ->
   trailing_blanks lines = O ->
   match explicit with
   | Some d => (1 <= d <= 9)%nat /\ N.of_nat n = (if (0 <=? pz)%Z then Z.to_N (pz + Z.of_N (N.of_nat d)) else N.of_nat d)
@@ -139,6 +145,7 @@ Theorem C05_block_scalar_empty_partial : forall (s : sc strin) F literal c (expl
   header_tail hc -> (2 * length hc + 2 < F)%nat ->
   Forall (fun k => (k < F)%nat) (j :: ks) -> (S (length ks) < F)%nat ->
   hd0 r' <> 32 -> is_break (hd0 r') = false -> hd0 (blank_lines ks ++ sps j ++ r') <> 9 ->
+  (* the end of the input, or a line that belongs to an enclosing collection *)
   (r' = [] \/ (hd0 r' <> 0 /\ (Z.of_nat j <= pz)%Z)) ->
   match explicit with
   | Some d => (1 <= d <= 9)%nat /\
@@ -154,6 +161,9 @@ Print Assumptions C05_block_scalar_empty_partial.
 
 From Coq Require Import String.
 
+Ltac lines_ok := repeat (apply Forall_cons || apply Forall_nil); unfold line_ok, line_col0, nobreak; cbn;
+  repeat split; try discriminate; try (right; discriminate); try (left; discriminate); try lia; try congruence; repeat constructor.
+
 (* the hypotheses of T4 are satisfiable, and the conclusion is not vacuous: "|-\n  x\n\n   y\n \nz" at top level *)
 Example C05_block_scalar_partial_instance :
   exists sp s', scan_block_scalar str_ops 40 true (init_sc {| si_chars := L "|-/  x//   y/ /z"; si_look := 0 |})
@@ -164,12 +174,12 @@ Proof.
   - reflexivity.
   - apply ht_white. constructor.
   - cbn. lia.
+  - lines_ok.
+  - lines_ok.
   - discriminate.
-  - repeat (apply Forall_cons || apply Forall_nil); unfold line_ok, nobreak; cbn;
-      repeat split; try discriminate; try (right; discriminate); try (left; discriminate); try lia; repeat constructor.
   - cbn. lia.
   - reflexivity.
-  - lia.
+  - left. lia.
   - discriminate.
   - reflexivity.
   - discriminate.
@@ -185,16 +195,55 @@ Proof.
   - reflexivity.
   - apply (ht_comment [32] (L " c")); [repeat constructor|discriminate|repeat constructor].
   - cbn. lia.
+  - lines_ok.
+  - lines_ok.
   - discriminate.
-  - repeat (apply Forall_cons || apply Forall_nil); unfold line_ok, nobreak; cbn;
-      repeat split; try discriminate; try (right; discriminate); try (left; discriminate); try lia; repeat constructor.
   - cbn. lia.
   - reflexivity.
-  - lia.
+  - left. lia.
   - discriminate.
   - reflexivity.
   - discriminate.
   - split; [lia|reflexivity].
+Qed.
+(* content at column 0 of a top-level scalar, ended by a document-end marker; and by the end of the input *)
+Example C05_block_scalar_partial_instance_column0 :
+  exists sp s', scan_block_scalar str_ops 40 false (init_sc {| si_chars := L ">/a/b/ c//... # end/"; si_look := 0 |})
+                = Ok ((sp, TScalar Folded (L "a b/ c/")), s') /\ si_chars (sc_in s') = L "... # end/".
+Proof.
+  apply (block_scalar_lines _ 40 false CClip None false [] [Text 0 (L "a"); Text 0 (L "b"); Text 1 (L "c"); Blank 0]
+           O (L "... # end/") O (-1)%Z []).
+  - reflexivity.
+  - reflexivity.
+  - apply ht_white. constructor.
+  - cbn. lia.
+  - lines_ok.
+  - lines_ok.
+  - discriminate.
+  - cbn. lia.
+  - reflexivity.
+  - right. repeat split. right. reflexivity.
+  - discriminate.
+  - reflexivity.
+  - discriminate.
+  - split; [cbn; lia|]. exists (L "a"). split; [reflexivity|discriminate].
+Qed.
+Example C05_block_scalar_eof_partial_instance :
+  exists sp s', scan_block_scalar str_ops 40 true (init_sc {| si_chars := L "|+/x/ y"; si_look := 0 |})
+                = Ok ((sp, TScalar Literal (L "x/ y/")), s') /\ si_chars (sc_in s') = [].
+Proof.
+  apply (block_scalar_lines_eof _ 40 true CKeep None false [] [Text 0 (L "x"); Text 1 (L "y")] O (-1)%Z []).
+  - reflexivity.
+  - reflexivity.
+  - apply ht_white. constructor.
+  - cbn. lia.
+  - lines_ok.
+  - lines_ok.
+  - discriminate.
+  - cbn. lia.
+  - reflexivity.
+  - reflexivity.
+  - split; [cbn; lia|]. exists (L "x"). split; [reflexivity|discriminate].
 Qed.
 
 Example C05_block_scalar_empty_instance :   (* "- |+\n\n   <eof>" : keep counts the blank line and the line of spaces *)
